@@ -3,19 +3,28 @@
 //!
 //! stdin: NDJSON scenarios
 //!   {"id":..,"cap":1024?, "compile":PROGRAM, "prove":PROGRAM?|null,
-//!    "perturb": null | {"mode":"each"|"sample","n":k,"delta":FE?},
+//!    "perturb": null | {"mode":"each"|"sample"|"rewire","n":k,"delta":FE?},
 //!    "version":3}
 //! stdout: NDJSON events (see DESIGN C.1 `prove`), one per proved instance.
 //!
 //! Perturbation: for `each`/`sample`, the instance program is the prove
 //! program followed by one `set_witness` on witness w (value += delta,
 //! default 1), for every (resp. n seeded) witness index w >= 2.
+//!
+//! `rewire`: the instance is the prove program's composer replayed row by row
+//! as raw gates (same selectors, same public-input rows) with ONE wire
+//! position wired to a fresh witness -- of the same value (`rewire-equal`), or
+//! of the value + delta with the row's public input re-solved so that the row
+//! itself still holds (`rewire-shift`).  Every wire of every public-input row
+//! is a target, plus n seeded positions elsewhere.  The copy constraints of
+//! the COMPILED description decide what the prover must answer.
 
 use std::collections::HashMap;
 use std::io::{BufRead, Write};
 
 use dusk_bls12_381::BlsScalar;
 use dusk_plonk::prelude::*;
+use dusk_plonk::verif::VerifSnapshot;
 use plonk_conf::fe::*;
 use plonk_conf::prog::*;
 use plonk_conf::rng::ScriptRng;
@@ -50,6 +59,47 @@ fn compose(p: &Program) -> Result<Composer, String> {
         Err(RunError::Lib(e)) => Err(format!("err:{}", err_class(&e))),
         Err(RunError::Bad(s)) => Err(format!("bad:{s}")),
     }
+}
+
+/// The composer state `snap` as a program of raw rows on top of
+/// `Composer::initialized()` (`init`), optionally with wire `k` of row `r`
+/// wired to a fresh witness of value `v` and that row's public input set to
+/// `pi`.
+fn raw_program(
+    snap: &VerifSnapshot,
+    init: &VerifSnapshot,
+    rewire: Option<(usize, usize, BlsScalar, Option<BlsScalar>)>,
+) -> Program {
+    let mut ops: Vec<Value> = Vec::new();
+    for w in init.witnesses.len()..snap.witnesses.len() {
+        ops.push(json!({"op":"witness","v":fe_hex(&snap.witnesses[w])}));
+    }
+    if let Some((_, _, v, _)) = &rewire {
+        ops.push(json!({"op":"witness","v":fe_hex(v)}));
+    }
+    let fresh = snap.witnesses.len();
+    for (i, row) in snap.rows.iter().enumerate().skip(init.rows.len()) {
+        let mut wires: Vec<usize> = row.wires.to_vec();
+        let mut pi = snap.public_inputs.iter().find(|(r, _)| *r == i).map(|(_, v)| *v);
+        if let Some((r, k, _, npi)) = &rewire {
+            if *r == i {
+                wires[*k] = fresh;
+                if npi.is_some() {
+                    pi = *npi;
+                }
+            }
+        }
+        let mut op = json!({
+            "op": "raw",
+            "sel": row.selectors.iter().map(fe_hex).collect::<Vec<_>>(),
+            "w": wires,
+        });
+        if let Some(pi) = pi {
+            op["pi"] = json!(fe_hex(&pi));
+        }
+        ops.push(op);
+    }
+    Program::from_json(&json!({"ops": ops})).expect("raw program")
 }
 
 fn main() {
@@ -119,7 +169,59 @@ fn main() {
                 let nw = bsnap.witnesses.len();
                 let delta = p.get("delta").map(|d| fe_from_json(d).unwrap()).unwrap_or(BlsScalar::one());
                 let mode = p.get("mode").and_then(|m| m.as_str()).unwrap_or("each");
-                let targets: Vec<usize> = if mode == "each" {
+                if mode == "rewire" {
+                    let init = Composer::initialized().verif_snapshot();
+                    let n = p.get("n").and_then(|n| n.as_u64()).unwrap_or(8) as usize;
+                    let first = init.rows.len();
+                    let rows = bsnap.rows.len();
+                    let mut pos: Vec<(usize, usize)> = Vec::new();
+                    for (r, _) in bsnap.public_inputs.iter() {
+                        if *r >= first {
+                            for k in 0..4 {
+                                pos.push((*r, k));
+                            }
+                        }
+                    }
+                    if rows > first {
+                        let mut s = seed ^ 0x51ed270b7f4a7c15u64.wrapping_mul(n_events as u64 + 1);
+                        for _ in 0..n {
+                            s = s.wrapping_mul(6364136223846793005).wrapping_add(1442695040888963407);
+                            let r = first + ((s >> 33) as usize) % (rows - first);
+                            let k = ((s >> 13) as usize) % 4;
+                            pos.push((r, k));
+                        }
+                    }
+                    pos.sort();
+                    pos.dedup();
+                    instances.push((json!({"kind":"raw-honest"}), raw_program(&bsnap, &init, None)));
+                    for (r, k) in pos {
+                        let old = bsnap.witnesses[bsnap.rows[r].wires[k]];
+                        instances.push((
+                            json!({"kind":"rewire-equal","row":r,"wire":k}),
+                            raw_program(&bsnap, &init, Some((r, k, old, None))),
+                        ));
+                        // shifted value; a public-input row is re-solved so that it still holds
+                        let nv = old + delta;
+                        let q = &bsnap.rows[r].selectors;
+                        let mut v: Vec<BlsScalar> =
+                            bsnap.rows[r].wires.iter().map(|w| bsnap.witnesses[*w]).collect();
+                        v[k] = nv;
+                        let has_pi = bsnap.public_inputs.iter().any(|(pr, _)| *pr == r);
+                        let npi = if has_pi {
+                            let sum = q[0] * v[0] * v[1] + q[1] * v[0] + q[2] * v[1] + q[3] * v[2] + q[4] * v[3] + q[5];
+                            Some(-(q[6] * sum))
+                        } else {
+                            None
+                        };
+                        instances.push((
+                            json!({"kind":"rewire-shift","row":r,"wire":k}),
+                            raw_program(&bsnap, &init, Some((r, k, nv, npi))),
+                        ));
+                    }
+                }
+                let targets: Vec<usize> = if mode == "rewire" {
+                    Vec::new()
+                } else if mode == "each" {
                     (2..nw).collect()
                 } else {
                     let n = p.get("n").and_then(|n| n.as_u64()).unwrap_or(8) as usize;
@@ -134,7 +236,9 @@ fn main() {
                     t.dedup();
                     t
                 };
-                instances.push((json!({"kind":"honest"}), prove_prog.clone()));
+                if mode != "rewire" {
+                    instances.push((json!({"kind":"honest"}), prove_prog.clone()));
+                }
                 for w in targets {
                     let mut pr = prove_prog.clone();
                     let nv = bsnap.witnesses[w] + delta;
@@ -200,7 +304,11 @@ fn main() {
                 .collect();
             let same_wiring = iw == cls;
             // witness table: overrides relative to the base table when possible
-            let (full, over): (Value, Value) = if isnap.witnesses.len() == base_tab.len() {
+            let mut ext: Vec<Value> = Vec::new();
+            let (full, over): (Value, Value) = if isnap.witnesses.len() >= base_tab.len()
+                && isnap.witnesses.len() <= base_tab.len() + 4
+            {
+                ext = isnap.witnesses[base_tab.len()..].iter().map(fe_to_json).collect();
                 let o: Vec<Value> = isnap
                     .witnesses
                     .iter()
@@ -232,6 +340,9 @@ fn main() {
                 ev["full"] = full;
             } else {
                 ev["over"] = over;
+                if !ext.is_empty() {
+                    ev["ext"] = json!(ext);
+                }
             }
             writeln!(out, "{}", ev).unwrap();
             n_events += 1;
